@@ -13,9 +13,11 @@ PASS = [None, '', 'Cookie', 'cookie', 'COOKIE', ' Cookie , Authorization', 'Cook
         ',', 'Coo kie', '*', 'Authorization,User-Agent,X-Custom,Accept', 'X-Empty', 'Proxy-Authorization, x-custom',
         'Cookie;Authorization', 'Authorization\t,\tcookie']
 CORS = [None, '', '*', 'https://a.example', 'https://a.example, https://b.example', ' https://a.example ,*', 'https://a.example,',
-        'null']
+        'null', 'https://*.example.org,http://one.com', 'http://one.com/*', '**', 'https://a.example, *.example',
+        ' * ', 'https://a.example ,https://b.example']
 ORIGINS = [None, 'https://a.example', 'https://b.example', 'https://evil.example', 'HTTPS://A.EXAMPLE', 'https://a.example.evil.example',
-           'null', '*', 'https://a.example,https://b.example']
+           'null', '*', 'https://a.example,https://b.example', 'https://x.example.org', 'http://one.com', 'http://one.com/*',
+           'https://b.example ']
 
 
 def norm(name):
